@@ -208,12 +208,50 @@ fn execute<const CAP: usize>(ops: &[Op], hist: &[u8]) -> Option<(Vec<Vec<u8>>, V
     let mut q: Qi<CAP> = Qi::new();
     let mut outs = vec![];
     for &h in hist {
-        let mut w = RecW::unbounded();
+        // the shipped fixed-capacity writer (the one `process` uses; it can take back a partial
+        // response), with ample room
+        let mut w: heapless::Vec<u8, 1024> = heapless::Vec::new();
         let o = run_on(&mut q, ops[h as usize].text, &mut w, Pattern::NONE);
         if o.end != End::Returned {
             return None;
         }
-        outs.push(mc::log::with(|l| l.concat(mc::log::K::WBytes)));
+        outs.push(w.to_vec());
+    }
+    // short histories once more into the pass-through writer (which cannot take anything back):
+    // same responses, same queue
+    if hist.len() <= 4 {
+        let mut q2: Qi<CAP> = Qi::new();
+        let mut outs2 = vec![];
+        for &h in hist {
+            let mut w = RecW::unbounded();
+            let o = run_on(&mut q2, ops[h as usize].text, &mut w, Pattern::NONE);
+            if o.end != End::Returned {
+                return None;
+            }
+            outs2.push(mc::log::with(|l| l.concat(mc::log::K::WBytes)));
+        }
+        let mut d2 = vec![];
+        let mut q1: Qi<CAP> = Qi::new();
+        for &h in hist {
+            let mut w: heapless::Vec<u8, 1024> = heapless::Vec::new();
+            run_on(&mut q1, ops[h as usize].text, &mut w, Pattern::NONE);
+        }
+        let mut d1 = vec![];
+        while let Some(e) = q1.errors.pop_error() {
+            d1.push(e.number());
+            if d1.len() > CAP + 5 {
+                break;
+            }
+        }
+        while let Some(e) = q2.errors.pop_error() {
+            d2.push(e.number());
+            if d2.len() > CAP + 5 {
+                break;
+            }
+        }
+        if outs2 != outs || d1 != d2 {
+            WRITER_DIFF.with(|c| *c.borrow_mut() = Some((outs.clone(), outs2, d1, d2)));
+        }
     }
     let count = q.errors.error_count();
     let mut drained = vec![];
@@ -233,13 +271,31 @@ fn hist_json(ops: &[Op], cap: usize, hist: &[u8]) -> J {
 
 /// Checks the last operation of `hist` against the model and returns the key
 /// of the state reached.
+thread_local! {
+    static WRITER_DIFF: std::cell::RefCell<Option<(Vec<Vec<u8>>, Vec<Vec<u8>>, Vec<i16>, Vec<i16>)>> = const { std::cell::RefCell::new(None) };
+}
+
 fn step<const CAP: usize>(ops: &[Op], hist: &[u8], g: &mut Groups, st: &mut Stats) -> Option<Found> {
+    WRITER_DIFF.with(|c| *c.borrow_mut() = None);
     // The model is nondeterministic where the property is: after a faulty unit either all or
     // none of the later units of that message run (C06).  Follow every alternative that is
     // consistent with the observed responses; at the end one of them must also match the
     // drained queue.
     let (outs, drained, count) = execute::<CAP>(ops, hist)?;
     st.execs += 1;
+    if let Some((a, b, d1, d2)) = WRITER_DIFF.with(|c| c.borrow_mut().take()) {
+        let feat = vec![("kind", "responses-or-queue-depend-on-the-writer".to_string()), ("cap", CAP.to_string())];
+        g.add("queue-model", &feat, (hist.len(), hist), || {
+            (
+                hist_json(ops, CAP, hist),
+                format!(
+                    "CAP={CAP} after {:?}: heapless::Vec<u8,1024> received {:?} and the queue then holds {:?}; the pass-through writer received {:?}, queue {:?}",
+                    hist.iter().map(|&h| show(ops[h as usize].text)).collect::<Vec<_>>(),
+                    a.iter().map(|x| show(x)).collect::<Vec<_>>(), d1, b.iter().map(|x| show(x)).collect::<Vec<_>>(), d2
+                ),
+            )
+        });
+    }
     let mut cands: Vec<Model> = vec![Model::default()];
     for (i, &h) in hist.iter().enumerate() {
         let mut next: Vec<Model> = vec![];
@@ -435,7 +491,7 @@ fn direct<const CAP: usize>(depth: usize, g: &mut Groups, st: &mut Stats) {
 /// the queue is drained - also when a response does not fit the writer.  The library queues an
 /// additional -223 / -310 for a response that does not fit; those are filtered out.
 fn conservation<const W: usize>(g: &mut Groups, st: &mut Stats, depth: usize) {
-    let ops: Vec<Op> = [&b"V 300\n"[..], b"V 'x'\n", b"T 5\n", b"CE1\n", b"SYST:ERR?\n", b"SYST:ERR?;ERR?\n", b"SYST:ERR:COUN?;NEXT?\n"]
+    let ops: Vec<Op> = [&b"V 300\n"[..], b"V 'x'\n", b"T 5\n", b"CE1\n", b"SYST:ERR?\n", b"SYST:ERR?;ERR?\n", b"SYST:ERR:COUN?;NEXT?\n", b"SYST:ERR?;:V 300\n", b"SYST:ERR?;:T 5;:SYST:ERR?\n"]
         .iter()
         .map(|t| describe(Box::leak(t.to_vec().into_boxed_slice())))
         .collect();
@@ -481,7 +537,10 @@ fn conservation<const W: usize>(g: &mut Groups, st: &mut Stats, depth: usize) {
             let seen: Vec<i16> = returned.iter().copied().filter(|n| *n != -223 && *n != -310).collect();
             if seen != pushed {
                 let hist: Vec<u8> = idx.iter().map(|&i| i as u8).collect();
-                let feat = vec![("kind", "entry-removed-but-never-returned".to_string()), ("response_writer", "bounded".to_string())];
+                // the library reports a response that does not fit its writer with -223 / -310
+                let overflowed = returned.iter().any(|n| *n == -223 || *n == -310);
+                let feat = vec![("kind", "entry-removed-but-never-returned".to_string()), ("response_writer", "bounded".to_string()),
+                                ("a_queue_response_did_not_fit_the_writer", overflowed.to_string())];
                 g.add("queue-conservation", &feat, (hist.len(), &hist), || {
                     (
                         json!({"cap": 10, "alphabet": "conservation", "writer": W, "history": hist, "messages": idx.iter().map(|&i| show(ops[i].text)).collect::<Vec<_>>()}),
@@ -690,7 +749,7 @@ fn main() {
                "operations_small": small.iter().map(|o| show(o.text)).collect::<Vec<_>>(),
                "operations_medium": OPS_MEDIUM.iter().map(|o| show(o)).collect::<Vec<_>>(), "per_capacity": per_cap,
                "large_capacity_line": {"capacities": if thorough { vec![300, 70000] } else { vec![300] }, "history": "CAP + 3 faulty messages, the count query after each, then everything read back; every prefix compared with a plain list", "operations": lst.transitions},
-               "bounded_writer_conservation": {"writers": [16, 24, 32, 48], "operations": 7, "max_sequence_length": cdepth, "sequences": cst.transitions}}),
+               "bounded_writer_conservation": {"writers": [16, 24, 32, 48], "operations": 9, "max_sequence_length": cdepth, "sequences": cst.transitions}}),
     );
     out.cov("overflow_states_visited", overflow);
     out.cov("samples", json!([["V 300\\n", "CE1\\n", "ZZ\\n", "SYST:ERR?\\n", "SYST:ERR:NEXT?;COUN?\\n"], ["@\\n", "@\\n", "SYST:ERR:COUN?;:V 'x'\\n"]]));
